@@ -782,6 +782,7 @@ namespace bxdecay0 {
 
     // Reset configuration:
     _nuclide_.clear();
+    _dataset_version_.clear();
     _process_  = PROCESS_UNDEF;
     _shooting_ = SHOOTING_UNDEF;
     return;
